@@ -28,7 +28,7 @@
             ji = summaries of an earlier run were read back (-ji): existing /=
             nil is outside the model, only the two byte comparisons are judged. *)
 From Perf Require Import Base.Bytes Base.Sx Base.B64 Base.SxF Base.Usort
-     Model.Dates Model.Bootstrap Model.BootstrapSpec Model.Series Model.SeriesSpec.
+     Model.Dates Model.Bootstrap Model.BootstrapSpec Model.Series Model.SeriesSpec Model.SeriesFindings.
 Local Open Scope Z_scope.
 
 Definition obytes_eqb := option_eqb beq.
@@ -54,22 +54,32 @@ Definition dates_corr (s1 s2 : bytes) (o1 o2 : option bytes) (i1 i2 : option ins
   obytes_eqb (normalize_date s1) o1 && obytes_eqb (normalize_date s2) o2
   && inst_eqb (denotes s1) i1 && inst_eqb (denotes s2) i2.
 
-(** specification on the observed outputs: same instant => same string; within
-    four-digit years the strings sort like the instants; a text that denotes an
-    instant is accepted *)
-Definition dates_prop (s1 s2 : bytes) (o1 o2 : option bytes) : bool :=
-  match denotes s1, denotes s2 with
-  | Some a, Some b =>
-      match o1, o2 with
-      | Some x, Some y =>
-          (if cmp_eqb (instant_cmp a b) Eq then beq x y else true)
-          && (if inrange_b a && inrange_b b then cmp_eqb (bcmp x y) (instant_cmp a b) else true)
-      | _, _ => false
-      end
-  | Some _, None => match o1 with Some _ => true | None => false end
-  | None, Some _ => match o2 with Some _ => true | None => false end
-  | None, None => true
+(** specification on the observed outputs, for ALL pairs of texts (no range
+    gate: with the repair hooks/fix_c18_date_year_range.diff an accepted text
+    denotes an instant of a four-digit UTC year, Proofs/DatesRange.v):
+    same instant => same outcome (the same string, or both rejected); the
+    strings of any two accepted texts compare like their instants; a text that
+    denotes an instant is rejected only if the UTC year of the instant has not
+    four digits *)
+Definition accept_ok (d : option instant) (o : option bytes) : bool :=
+  match d, o with
+  | Some i, None => negb (inrange_b i)
+  | _, _ => true
   end.
+
+Definition dates_prop (s1 s2 : bytes) (o1 o2 : option bytes) : bool :=
+  accept_ok (denotes s1) o1 && accept_ok (denotes s2) o2
+  && match denotes s1, denotes s2 with
+     | Some a, Some b =>
+         match o1, o2 with
+         | Some x, Some y =>
+             (if cmp_eqb (instant_cmp a b) Eq then beq x y else true)
+             && cmp_eqb (bcmp x y) (instant_cmp a b)
+         | Some _, None | None, Some _ => negb (cmp_eqb (instant_cmp a b) Eq)
+         | None, None => true
+         end
+     | _, _ => true
+     end.
 
 (** * bootstrap *)
 Inductive outcome3 := O3ok (c l h : b64) | O3undef | O3panic.
@@ -103,24 +113,106 @@ Definition boot_corr (nu de : list Z) (conf : b64) (n : nat) (seed : Z) (stream 
   Z.eqb (bootstrap_seed snu sde) seed
   && match ratio (map b64_of_bits snu) (map b64_of_bits sde) conf n stream with
      | Some (rs, summ) =>
-         list_eqb feq rs ratios && out3_matches summ pub && out3_matches summ hook
+         (* sort.Float64s is modelled on NaN-free data only (Inf / Inf arises when the
+            sums of both resampled medians overflow: finding C18_median_sum_overflow) *)
+         existsb b64_is_nan rs
+         || (list_eqb feq rs ratios && out3_matches summ pub && out3_matches summ hook)
      | None => false
      end.
 
-Definition boot_prop (nu de : list Z) (pub : outcome3) (again : bool) : bool :=
+(** ** the two recorded deviations of the bootstrap summary, decided from the
+    input by a simulation of the mechanism (never from the observed summary):
+
+    [flat_bracket] (finding C18_percentile_interpolation_rounding): a percentile
+    position falls strictly between two bootstrap ratios that are equal or at
+    most 4 ulps apart; [percentile]'s interpolation a[i]*(1-x)+a[i+1]*x may then
+    round a step outside [a[i], a[i+1]].  Excused with it: low / high at most 2
+    ulps outside the hull - nothing else.
+
+    [median_overflows] (finding C18_median_sum_overflow): [median] of an even
+    number of values forms a+b before halving; a sample of even size whose
+    largest value exceeds MaxFloat64/2 (or an even resample count with such a
+    largest attainable ratio) makes the sum +Inf.  Excused with it, per sum
+    that can overflow:
+      numerator sum / sum of two ratios: a summary value may be +Inf;
+      denominator sum: the resampled denominator median may be +Inf, a ratio
+        then 0, and percentile / median of the ratios anything between 0 and
+        the hull: the lower bound of the hull is replaced by 0;
+      numerator and denominator sum: Inf / Inf, a summary value may be NaN.
+    The upper bound otherwise, the order low <= centre <= high of every
+    summary without a NaN, and reproducibility stay required. *)
+Definition ford (x : b64) : Z := fkey (bits_of_b64 x).
+
+Definition flat_at (a : list b64) (q : b64) : bool :=
+  if b64_eq q b64_zero || b64_eq q b64_one then false
+  else
+    let n := Z.of_nat (length a) in
+    let f := b64_mul (b64_of_Z n) q in
+    match b64_trunc f with
+    | Some i =>
+        (0 <=? i) && (i + 1 <? n) && b64_gt (b64_sub f (b64_of_Z i)) b64_zero
+        && (Z.abs (ford (nth_f a (Z.to_nat i)) - ford (nth_f a (S (Z.to_nat i)))) <=? 4)
+    | None => false
+    end.
+
+Definition flat_bracket (conf : b64) (sorted : list b64) : bool :=
+  let p := b64_div (b64_sub b64_one conf) b64_two in
+  flat_at sorted p || flat_at sorted (b64_sub b64_one p).
+
+(** the model's sorted bootstrap ratios for the replayed stream *)
+Definition model_ratios (nu de : list Z) (conf : b64) (n : nat) (stream : list Z) : list b64 :=
+  match ratio (map b64_of_bits (vsort nu)) (map b64_of_bits (vsort de)) conf n stream with
+  | Some (rs, _) => rs
+  | None => []
+  end.
+
+Definition ovf_num (fnu : list b64) : bool := negb (even_guard (length fnu) (fmax fnu)).
+Definition ovf_den (fde : list b64) : bool := negb (even_guard (length fde) (fmax fde)).
+Definition ovf_ratio (fnu fde : list b64) (n : nat) : bool :=
+  b64_is_finite (hull_hi fnu fde) && negb (even_guard n (hull_hi fnu fde)).
+Definition median_overflows (fnu fde : list b64) (n : nat) : bool :=
+  ovf_num fnu || ovf_den fde || ovf_ratio fnu fde n.
+
+(** [x] is at most [k] ulps below [lo] / above [hi] *)
+Definition ge_upto (k : Z) (lo x : b64) : bool :=
+  b64_le lo x || (negb (b64_is_nan x) && negb (b64_is_nan lo) && (0 <=? ford lo - ford x) && (ford lo - ford x <=? k)).
+Definition le_upto (k : Z) (x hi : b64) : bool :=
+  b64_le x hi || (negb (b64_is_nan x) && negb (b64_is_nan hi) && (0 <=? ford x - ford hi) && (ford x - ford hi <=? k)).
+
+Definition pos_inf (x : b64) : bool := match x with S754_infinity false => true | _ => false end.
+
+(** the judge of a summary; [flat] / [ovf] = the deviation concerned may show
+    ([n] = the resample count, used with [ovf] only); both false: the property
+    as stated *)
+Definition boot_judge (flat ovf : bool) (n : nat) (nu de : list Z) (pub : outcome3) (again : bool) : bool :=
   let fnu := map b64_of_bits nu in
   let fde := map b64_of_bits de in
   again &&
   match pub with
   | O3ok c l h =>
-      b64_le l c && b64_le c h
-      && (if forallb (fun x => b64_gt x b64_zero) (fnu ++ fde) then
-            let lo := hull_lo fnu fde in
+      let positive := forallb (fun x => b64_gt x b64_zero) (fnu ++ fde) in
+      let on := ovf && positive && ovf_num fnu in
+      let od := ovf && positive && ovf_den fde in
+      let or_ := ovf && positive && ovf_ratio fnu fde n in
+      let nan_ok (x : b64) := on && od && b64_is_nan x in
+      ((b64_le l c && b64_le c h) || existsb nan_ok [c; l; h])
+      && (if positive then
+            let lo := if od then b64_zero else hull_lo fnu fde in
             let hi := hull_hi fnu fde in
-            forallb (fun x => b64_le lo x && b64_le x hi) [c; l; h]
+            let k := if flat then 2 else 0 in
+            let inf_ok (x : b64) := (on || or_) && pos_inf x in
+            (nan_ok c || ((b64_le lo c) && (b64_le c hi || inf_ok c)))
+            && forallb (fun x => nan_ok x || (ge_upto k lo x && (le_upto k x hi || inf_ok x))) [l; h]
           else true)
   | _ => false
   end.
+
+Definition boot_prop (nu de : list Z) (pub : outcome3) (again : bool) : bool :=
+  boot_judge false false O nu de pub again.
+
+(** the relaxed judge of the two findings for ONE summary *)
+Definition boot_known (nu de : list Z) (conf : b64) (n : nat) (stream : list Z) (pub : outcome3) (again : bool) : bool :=
+  boot_judge (flat_bracket conf (model_ratios nu de conf n stream)) true n nu de pub again.
 
 (** * several cells summarised by one AddSummaries call
     (3 conf N ((nu de seed stream multi alone) ...)) *)
@@ -147,13 +239,18 @@ Definition mcell_corr (conf : b64) (n : nat) (c : mcell) : bool :=
   let sde := vsort (m_de c) in
   Z.eqb (bootstrap_seed snu sde) (m_seed c)
   && match ratio (map b64_of_bits snu) (map b64_of_bits sde) conf n (m_stream c) with
-     | Some (_, summ) => out3_matches summ (m_multi c)
+     | Some (rs, summ) => existsb b64_is_nan rs || out3_matches summ (m_multi c)
      | None => false
      end.
 
 (** each cell's summary is what its samples give when summarised alone, and is sane *)
 Definition mcell_prop (c : mcell) : bool :=
   out3_same (m_multi c) (m_alone c) && boot_prop (m_nu c) (m_de c) (m_multi c) true.
+
+(** relaxed per CELL: a cell whose own ratios do not bracket a percentile
+    position flatly is judged in full whatever the other cells of the case do *)
+Definition mcell_known (conf : b64) (n : nat) (c : mcell) : bool :=
+  out3_same (m_multi c) (m_alone c) && boot_known (m_nu c) (m_de c) conf n (m_stream c) (m_multi c) true.
 
 (** * series *)
 Definition as_role (s : sx) : option role :=
@@ -253,15 +350,6 @@ Definition canon_series_w (s : series) : series :=
 Definition outS_canon (o : outcomeS) : outcomeS :=
   match o with OSok l => OSok (map canon_series_w l) | _ => o end.
 
-(** the final pass: both samples of a cell that has a denominator are sorted *)
-Definition cell_sorted (c : ocell) : bool :=
-  match oc_den c with
-  | [] => true
-  | _ => zlist_eqb (vsort (oc_num c)) (oc_num c) && zlist_eqb (vsort (oc_den c)) (oc_den c)
-  end.
-Definition raw_sorted (o : outcomeS) : bool :=
-  match o with OSok l => forallb (fun s => forallb cell_sorted (se_cells s)) l | _ => true end.
-
 Definition outS_eqb (full : bool) (a b : outcomeS) : bool :=
   match a, b with
   | OSok x, OSok y => list_eqb (if full then series_eqb else axes_eqb) x y
@@ -292,11 +380,87 @@ Definition permute (rs : list res) (ord : list nat) : list res :=
 
 Definition not_panic (o : outcomeS) : bool := match o with OSpanic => false | _ => true end.
 
-(** the gate: [wf_a_norm] (Model/SeriesSpec.v: a numerator hash has one series
-    INSTANT, its stamp may be spelled in several ways) in place of [wf_a];
+(** [wf_a_norm] (Model/SeriesSpec.v: a numerator hash has one series INSTANT,
+    its stamp may be spelled in several ways) in place of [wf_a];
     Proofs/SeriesSpelling.v: sound for WFset_norm, under which the model meets
-    [spec_series] and is add-order independent *)
+    [spec_series] and is add-order independent.  NOT a gate of the judge any
+    more: the property quantifies over all result sets, and [series_judge]
+    below compares every run of every set with [spec_series]; the sets outside
+    [wf_all] are where the four recorded findings (Model/SeriesFindings.v) live,
+    and [excuses] is empty on [wf_all] sets. *)
 Definition wf_all (rs : list res) : bool := wf_a_norm rs && wf_b rs && wf_c rs && wf_d rs.
+
+(** ** comparison of series up to the excused places
+    [exs]: one excuse per table of the set, in the order of the series (all
+    [ex_none] for the judge proper, so that the comparison is plain equality);
+    [may_err]: the error outcome depends on the add order (finding A with a
+    stamp that does not normalise) *)
+Fixpoint map2o {A B C} (f : A -> B -> C) (l : list A) (l' : list B) : option (list C) :=
+  match l, l' with
+  | [], [] => Some []
+  | x :: l, y :: l' => match map2o f l l' with Some r => Some (f x y :: r) | None => None end
+  | _, _ => None
+  end.
+
+Definition outS_meq (exs : list excuse) (may_err : bool) (a b : outcomeS) : bool :=
+  match a, b with
+  | OSok x, OSok y =>
+      match map2o mask_series exs x, map2o mask_series exs y with
+      | Some x', Some y' => list_eqb series_eqb x' y'
+      | _, _ => false
+      end
+  | OSerr, OSerr => true
+  | OSerr, OSok _ | OSok _, OSerr => may_err
+  | OSpanic, OSpanic => true
+  | _, _ => false
+  end.
+
+(** what the declarative specification says of the set; with [relax] the error
+    outcome is demanded only where it does not depend on the add order *)
+Definition spec_ref (relax combine : bool) (rs : list res) : outcomeS :=
+  if (if relax then spec_err_strict rs (bad_hashes rs) else spec_err rs) then OSerr
+  else OSok (spec_tables combine rs).
+
+Definition may_err_of (relax : bool) (rs : list res) : bool := relax && exA_err rs (bad_hashes rs).
+
+(** ** summaries, cell by cell, with the excused cells left out *)
+Definition krow := (bytes * bytes * outcome3)%type.
+Definition krow_eqb (a b : krow) : bool :=
+  beq (fst (fst a)) (fst (fst b)) && beq (snd (fst a)) (snd (fst b)) && out3_same (snd a) (snd b).
+
+Fixpoint masked_row (e : excuse) (cells : list ocell) (row : list outcome3) : option (list krow) :=
+  match cells, row with
+  | [], [] => Some []
+  | c :: cells', x :: row' =>
+      match masked_row e cells' row' with
+      | Some r => Some (if cell_ok e (oc_bench c) (oc_ser c) then (oc_bench c, oc_ser c, x) :: r else r)
+      | None => None
+      end
+  | _, _ => None
+  end.
+
+Fixpoint masked_sums (exs : list excuse) (l : list series) (ss : list (list outcome3)) : option (list (list krow)) :=
+  match exs, l, ss with
+  | [], [], [] => Some []
+  | e :: exs', s :: l', row :: ss' =>
+      match masked_row e (se_cells s) row, masked_sums exs' l' ss' with
+      | Some r, Some rest => Some (r :: rest)
+      | _, _ => None
+      end
+  | _, _, _ => None
+  end.
+
+Definition omsums_eqb (a b : option (list (list krow))) : bool :=
+  match a, b with Some x, Some y => list_eqb (list_eqb krow_eqb) x y | _, _ => false end.
+
+(** the series of the first successful run of a policy: the run whose cells
+    the harness summarised alone ([refs]) *)
+Definition first_ok (combine : bool) (runs : list srun) : option (list series) :=
+  match filter (fun r => Bool.eqb (ru_combine r) combine
+                         && match ru_out r with OSok _ => true | _ => false end) runs with
+  | r :: _ => match outS_canon (ru_out r) with OSok l => Some l | _ => None end
+  | [] => None
+  end.
 
 (** the model's summary of a cell: seed from the samples in order, replayed stream *)
 Definition cell_ref_corr (conf : b64) (n : nat) (c : ocell) (rf : cref) : bool :=
@@ -317,43 +481,72 @@ Fixpoint forall2b {A B} (f : A -> B -> bool) (l : list A) (l' : list B) : bool :
   | _, _ => false
   end.
 
-Definition refs_corr (conf : b64) (n : nat) (rs : list res) (combine : bool) (rf : list (list cref)) : bool :=
-  match model_out combine rs with
-  | OSok l => forall2b (fun s row => forall2b (cell_ref_corr conf n) (se_cells s) row) l rf
-  | _ => match rf with [] => true | _ => false end
+(** the reference summaries are the model's summaries of the samples of the
+    cells the harness summarised (those of the first successful run; for a set
+    without excused places they are the model's own cells, by [series_corr]) *)
+Definition refs_corr (conf : b64) (n : nat) (runs : list srun) (combine : bool) (rf : list (list cref)) : bool :=
+  match first_ok combine runs with
+  | Some l => forall2b (fun s row => forall2b (cell_ref_corr conf n) (se_cells s) row) l rf
+  | None => match rf with [] => true | _ => false end
   end.
 
+(** model and code agree on every run, up to the places where the code's
+    outcome depends on the order in which a Go map is enumerated (the model is
+    evaluated with the enumeration in order of first insertion) *)
 Definition series_corr (rs : list res) (flags : list bool) (runs : list srun)
            (conf : b64) (n : nat) (rf : refs) : bool :=
-  let wf := wf_all rs in
+  let exr := excuses true false rs in
+  let exc := excuses true true rs in
   list_eqb Bool.eqb flags [wf_a rs; wf_b rs; wf_c rs; wf_d rs; wf_a_norm rs]
-  && forallb (fun r => outS_eqb wf (model_out (ru_combine r) (permute rs (ru_order r)))
+  && forallb (fun r => outS_meq (if ru_combine r then exc else exr) false
+                                (model_out (ru_combine r) (permute rs (ru_order r)))
                                 (outS_canon (ru_out r))) runs
-  && (if wf then refs_corr conf n rs false (fst rf) && refs_corr conf n rs true (snd rf) else true).
+  && refs_corr conf n runs false (fst rf) && refs_corr conf n runs true (snd rf).
 
 Definition sums_no_panic (r : srun) : bool := match ru_sums r with Some _ => true | None => false end.
 
 (** the summaries of a run are, cell by cell, the summaries of the same
     multisets of measurements obtained from one experiment - hence the same for
     every add order *)
-Definition sums_ok (rf : refs) (r : srun) : bool :=
-  match ru_out r, ru_sums r with
-  | OSok _, Some ss => list_eqb (list_eqb out3_same) ss (map (map cr_alone) (refs_of (ru_combine r) rf))
+Definition sums_ok (exs : list excuse) (rf : refs) (runs : list srun) (r : srun) : bool :=
+  match outS_canon (ru_out r), ru_sums r with
+  | OSok l, Some ss =>
+      match first_ok (ru_combine r) runs with
+      | Some l0 => omsums_eqb (masked_sums exs l ss)
+                              (masked_sums exs l0 (map (map cr_alone) (refs_of (ru_combine r) rf)))
+      | None => false
+      end
   | OSok _, None => false
   | _, _ => true
   end.
 
-Definition series_prop (rs : list res) (runs : list srun) (rf : refs) : bool :=
-  let wf := wf_all rs in
+(** THE JUDGE of the series clauses, for every result set (no well-formedness
+    gate): no run panics; every run's output - tables, benchmarks, series
+    points, hash pairs and, per cell, date and both samples AS RETURNED (the
+    specification gives them sorted) - is the declarative [spec_series] of the
+    set; any two runs of one policy agree; the summaries are those of the same
+    multisets summarised alone.
+    [relax = false]: the property as stated ([prop_ok]).
+    [relax = true]: the same with the places of Model/SeriesFindings.v left out
+    of every comparison ([known_ok]); for a set inside [wf_all] the two are the
+    same predicate. *)
+Definition series_judge (relax : bool) (rs : list res) (runs : list srun) (rf : refs) : bool :=
+  let exr := excuses relax false rs in
+  let exc := excuses relax true rs in
+  let may := may_err_of relax rs in
+  let refr := spec_ref relax false rs in
+  let refc := spec_ref relax true rs in
+  let exs_of (c : bool) := if c then exc else exr in
   forallb (fun r => not_panic (ru_out r) && sums_no_panic r) runs
-  && forallb (fun r => raw_sorted (ru_out r)) runs
-  && (if wf then
-        forallb (fun r => outS_eqb true (spec_seriesS (ru_combine r) rs) (outS_canon (ru_out r))) runs
-        && forallb (fun r => forallb (fun r' =>
-              negb (Bool.eqb (ru_combine r) (ru_combine r'))
-              || outS_eqb true (outS_canon (ru_out r)) (outS_canon (ru_out r'))) runs) runs
-        && forallb (sums_ok rf) runs
-      else true).
+  && forallb (fun r => outS_meq (exs_of (ru_combine r)) may (if ru_combine r then refc else refr)
+                                (outS_canon (ru_out r))) runs
+  && forallb (fun r => forallb (fun r' =>
+        negb (Bool.eqb (ru_combine r) (ru_combine r'))
+        || outS_meq (exs_of (ru_combine r)) may (outS_canon (ru_out r)) (outS_canon (ru_out r'))) runs) runs
+  && forallb (fun r => sums_ok (exs_of (ru_combine r)) rf runs r) runs.
+
+Definition series_prop := series_judge false.
+Definition series_known := series_judge true.
 
 (** * one builder used incrementally *)
 Definition sums_t := option (list (list outcome3)).
@@ -371,31 +564,36 @@ Definition as_inc (s : sx) : option irun :=
 Definition sums_eqb (a b : sums_t) : bool := option_eqb (list_eqb (list_eqb out3_same)) a b.
 Definition some_sums (s : sums_t) : bool := match s with Some _ => true | None => false end.
 
+Definition sums_meq (exs : list excuse) (o1 : outcomeS) (s1 : sums_t) (o2 : outcomeS) (s2 : sums_t) : bool :=
+  match outS_canon o1, s1, outS_canon o2, s2 with
+  | OSok l1, Some ss1, OSok l2, Some ss2 => omsums_eqb (masked_sums exs l1 ss1) (masked_sums exs l2 ss2)
+  | _, _, _, _ => sums_eqb s1 s2
+  end.
+
 (** the model of the history (Model/SeriesHist.v): the first build sees the
-    builder of the first k additions, the second the builder of all.  [wf] =
-    [wf_all rs]; a part of a well-formed set is well-formed up to clause b (the
-    baseline hash of a trial is known once its first denominator is added) *)
-Definition inc_corr (wf : bool) (rs : list res) (i : irun) : bool :=
+    builder of the first k additions, the second the builder of all; each is
+    compared up to the map-order dependent places of the set it has seen (a
+    part of a well-formed set can lack the baseline of a trial: class B) *)
+Definition inc_corr (rs : list res) (i : irun) : bool :=
   let all := permute rs (in_order i) in
   let pre := permute rs (firstn (in_k i) (in_order i)) in
-  outS_eqb (wf && wf_b pre) (model_out (in_combine i) pre) (outS_canon (in_out1 i))
-  && outS_eqb wf (model_out (in_combine i) all) (outS_canon (in_out2 i)).
+  outS_meq (excuses true (in_combine i) pre) false (model_out (in_combine i) pre) (outS_canon (in_out1 i))
+  && outS_meq (excuses true (in_combine i) rs) false (model_out (in_combine i) all) (outS_canon (in_out2 i)).
 
-(** specification: no panic, samples returned sorted; for a well-formed result
-    set the second build AND its summaries are those of a fresh builder over the
-    identical result set: the declarative series of the set, the observed
-    output and summaries of every fresh run of that policy, and per cell the
-    summary of the cell's multiset summarised alone *)
-Definition inc_prop (wf : bool) (rs : list res) (runs : list srun) (rf : refs) (i : irun) : bool :=
+(** specification: no panic; the second build AND its summaries are those of a
+    fresh builder over the identical result set: the declarative series of the
+    set, the observed output and summaries of every fresh run of that policy,
+    and per cell the summary of the cell's multiset summarised alone.
+    [relax]: as in [series_judge] *)
+Definition inc_judge (relax : bool) (rs : list res) (runs : list srun) (rf : refs) (i : irun) : bool :=
+  let exs := excuses relax (in_combine i) rs in
+  let may := may_err_of relax rs in
   not_panic (in_out1 i) && not_panic (in_out2 i) && some_sums (in_sums1 i) && some_sums (in_sums2 i)
-  && raw_sorted (in_out1 i) && raw_sorted (in_out2 i)
-  && (if wf then
-        outS_eqb true (spec_seriesS (in_combine i) rs) (outS_canon (in_out2 i))
-        && forallb (fun r => negb (Bool.eqb (ru_combine r) (in_combine i))
-                             || (outS_eqb true (outS_canon (ru_out r)) (outS_canon (in_out2 i))
-                                 && sums_eqb (ru_sums r) (in_sums2 i))) runs
-        && sums_ok rf (mkRun (in_combine i) (in_order i) (in_out2 i) (in_sums2 i))
-      else true).
+  && outS_meq exs may (spec_ref relax (in_combine i) rs) (outS_canon (in_out2 i))
+  && forallb (fun r => negb (Bool.eqb (ru_combine r) (in_combine i))
+                       || (outS_meq exs may (outS_canon (ru_out r)) (outS_canon (in_out2 i))
+                           && sums_meq exs (ru_out r) (ru_sums r) (in_out2 i) (in_sums2 i))) runs
+  && sums_ok exs rf runs (mkRun (in_combine i) (in_order i) (in_out2 i) (in_sums2 i)).
 
 (** * the command (kind 5) *)
 Record pcell := mkPC { pc_bench : bytes; pc_ser : bytes; pc_date : bytes; pc_sum : outcome3 }.
@@ -463,7 +661,13 @@ Definition sums_shape_ok (l : list series) (ss : list (list outcome3)) : bool :=
   Nat.eqb (length l) (length ss)
   && forall2b (fun s row => Nat.eqb (length (se_cells s)) (length row)) l ss.
 
-(** against the series [o] (the model's, or the specification's) *)
+Definition mask_pseries (e : excuse) (p : pseries) : pseries :=
+  mkPS (ps_unit p) (ps_benchmarks p)
+       (filter (col_ok e) (ps_series p))
+       (mask_hp e (ps_hp p))
+       (filter (fun c => cell_ok e (pc_bench c) (pc_ser c)) (ps_cells p)).
+
+(** against the series [o] (the model's, or the specification's), in full *)
 Definition cmd_agrees (with_sums : bool) (o : outcomeS) (c : cmdobs) : bool :=
   match o with
   | OSok l =>
@@ -478,21 +682,50 @@ Definition cmd_agrees (with_sums : bool) (o : outcomeS) (c : cmdobs) : bool :=
   | OSpanic => false
   end.
 
+(** the same up to the excused places, summaries left out (the library run
+    whose summaries are recorded enumerates its maps in its own order) *)
+Definition cmd_agrees_masked (exs : list excuse) (may_err : bool) (o : outcomeS) (c : cmdobs) : bool :=
+  match o with
+  | OSok l =>
+      if (cm_exit c =? 0)%Z then
+        match cm_out c with
+        | Some pl =>
+            match map2o mask_pseries exs (project_all l []), map2o mask_pseries exs pl with
+            | Some a, Some b => list_eqb (pseries_eqb false) a b
+            | _, _ => false
+            end
+        | None => false
+        end
+      else may_err
+  | OSerr => negb (cm_exit c =? 0)%Z
+  | OSpanic => false
+  end.
+
 Definition cmd_corr (rs : list res) (c : cmdobs) : bool :=
   if cm_ji c then true
-  else if wf_all rs then cmd_agrees false (model_out false rs) c else true.
+  else cmd_agrees_masked (excuses true false rs) (may_err_of true rs) (model_out false rs) c.
 
 (** the specification clause: with the options the flags are documented to set,
     the command's series are the declarative series of the result set
     (DUPE_REPLACE) with the library's summaries for the flag's confidence, and
-    its JSON / CSV are the library's *)
-Definition cmd_prop (rs : list res) (c : cmdobs) : bool :=
-  if cm_ji c then cm_samejson c && cm_samecsv c
-  else if wf_all rs then
-    cmd_agrees true (spec_seriesS false rs) c && cm_samejson c && cm_samecsv c
-  else true.
+    its JSON / CSV are the library's.  [relax]: for a set with excused places
+    the two byte comparisons (two processes, two map orders) and the summaries
+    are left out and the series are compared up to those places *)
+Definition cmd_judge (relax : bool) (rs : list res) (c : cmdobs) : bool :=
+  if cm_ji c then
+    (relax && negb (forallb ex_empty (excuses true false rs) && negb (may_err_of true rs)))
+    || (cm_samejson c && cm_samecsv c)
+  else
+    let exs := excuses relax false rs in
+    if forallb ex_empty exs && negb (may_err_of relax rs) then
+      cmd_agrees true (spec_seriesS false rs) c && cm_samejson c && cm_samecsv c
+    else cmd_agrees_masked exs (may_err_of relax rs) (spec_ref relax false rs) c.
 
-(** * dispatch on the case kind *)
+(** * dispatch on the case kind
+    [code_of3 corr prop known]: bit 3 = the property fails AND even the relaxed
+    judge of the recorded findings fails (bin/check excuses a failing case only
+    if its input carries a finding's tag and bit 3 is clear).  Dates have no
+    finding: [known] is [prop] there. *)
 Definition run_case (s : sx) : N :=
   match s with
   | SL [SZ 0; SB s1; SB s2; o1; o2; i1; i2] =>
@@ -505,35 +738,39 @@ Definition run_case (s : sx) : N :=
       match as_list as_z nu, as_list as_z de, as_nat n, as_list as_z stream, as_out3 pub,
             as_list as_f64 ratios, as_out3 hook, as_bool again with
       | Some nu, Some de, Some n, Some stream, Some pub, Some ratios, Some hook, Some again =>
-          code_of (boot_corr nu de (b64_of_bits conf) n seed stream pub ratios hook)
-                  (boot_prop nu de pub again)
+          code_of3 (boot_corr nu de (b64_of_bits conf) n seed stream pub ratios hook)
+                   (boot_prop nu de pub again)
+                   (boot_known nu de (b64_of_bits conf) n stream pub again)
       | _, _, _, _, _, _, _, _ => code_undecodable
       end
   | SL [SZ 3; SZ conf; n; cells] =>
       match as_nat n, as_list as_mcell cells with
       | Some n, Some cells =>
-          code_of (forallb (mcell_corr (b64_of_bits conf) n) cells) (forallb mcell_prop cells)
+          code_of3 (forallb (mcell_corr (b64_of_bits conf) n) cells) (forallb mcell_prop cells)
+                   (forallb (mcell_known (b64_of_bits conf) n) cells)
       | _, _ => code_undecodable
       end
   | SL [SZ 2; rs; flags; runs; SZ conf; n; rf] =>
       match as_list as_res rs, as_list as_bool flags, as_list as_run runs, as_nat n, as_refs rf with
       | Some rs, Some flags, Some runs, Some n, Some rf =>
-          code_of (series_corr rs flags runs (b64_of_bits conf) n rf) (series_prop rs runs rf)
+          code_of3 (series_corr rs flags runs (b64_of_bits conf) n rf) (series_prop rs runs rf)
+                   (series_known rs runs rf)
       | _, _, _, _, _ => code_undecodable
       end
   | SL [SZ 4; rs; flags; runs; SZ conf; n; rf; incs] =>
       match as_list as_res rs, as_list as_bool flags, as_list as_run runs, as_nat n, as_refs rf, as_list as_inc incs with
       | Some rs, Some flags, Some runs, Some n, Some rf, Some incs =>
-          let wf := wf_all rs in
-          code_of (series_corr rs flags runs (b64_of_bits conf) n rf && forallb (inc_corr wf rs) incs)
-                  (series_prop rs runs rf && forallb (inc_prop wf rs runs rf) incs)
+          code_of3 (series_corr rs flags runs (b64_of_bits conf) n rf && forallb (inc_corr rs) incs)
+                   (series_prop rs runs rf && forallb (inc_judge false rs runs rf) incs)
+                   (series_known rs runs rf && forallb (inc_judge true rs runs rf) incs)
       | _, _, _, _, _, _ => code_undecodable
       end
   | SL [SZ 5; rs; flags; runs; SZ conf; n; rf; cmd] =>
       match as_list as_res rs, as_list as_bool flags, as_list as_run runs, as_nat n, as_refs rf, as_cmd cmd with
       | Some rs, Some flags, Some runs, Some n, Some rf, Some cmd =>
-          code_of (series_corr rs flags runs (b64_of_bits conf) n rf && cmd_corr rs cmd)
-                  (series_prop rs runs rf && cmd_prop rs cmd)
+          code_of3 (series_corr rs flags runs (b64_of_bits conf) n rf && cmd_corr rs cmd)
+                   (series_prop rs runs rf && cmd_judge false rs cmd)
+                   (series_known rs runs rf && cmd_judge true rs cmd)
       | _, _, _, _, _, _ => code_undecodable
       end
   | _ => code_undecodable
